@@ -1,0 +1,17 @@
+//go:build verif
+
+// Contracts for the deductive verifier under /verif (comment-only; never compiled into oxy).
+package stream
+
+//@ type Stream
+//@   immutable maxRequestBodyBytes maxResponseBodyBytes verbose log
+//@   setup Wrap
+
+// C20: the stream middleware never intervenes: one call of the wrapped handler with the very writer and request.
+//@ func (*Stream).ServeHTTP
+//@   props C20
+//@   requires s != nil && s.next != nil
+//@   modifies everything
+//@   ensures handler_exactly_once: calls(s.next.ServeHTTP) == 1
+//@   ensures writes_nothing_itself: calls(w.WriteHeader) == 0 && calls(w.Write) == 0 && calls(w.Header) == 0
+//@   at_call s.next.ServeHTTP same_writer_and_request: arg0 == w && arg1 == req
